@@ -64,6 +64,7 @@ class GenCfg:
     force_type_cycle: bool = False  # C03: cycle palettes so that every type occurs
     asset: str = "B1"
     first_row: int = 3
+    ops: Tuple[str, ...] = ("in", "in", "out", "out", "out", "intra")  # operation mix once something is held
 
 
 ROUND_AMOUNTS = [1, 2, 3, 5, 10, 100]
@@ -244,7 +245,7 @@ def history(draw: Any, cfg: GenCfg = GenCfg()) -> Dict[str, Any]:
         if not funded:
             op = "in"
         else:
-            op = draw(st.sampled_from(["in", "in", "out", "out", "out", "intra"] if cfg.intra else ["in", "in", "out", "out", "out"]))
+            op = draw(st.sampled_from([o for o in cfg.ops if cfg.intra or o != "intra"]))
         price = draw(price_units(palette=palette, wide=cfg.wide))
         uid = f"u{len(state.rows) + 1}"
         if op == "in":
